@@ -6,6 +6,7 @@ cd /verif
 fail=0
 for d in seeded/*/; do
   id=$(basename $d)
+  if python3 -c "import json,sys;sys.exit(0 if json.load(open('$d/meta.json')).get('retired') else 1)"; then echo "$id: retired (the repaired tree no longer has the mechanism)"; continue; fi
   checks=$(python3 -c "import json;m=json.load(open('$d/meta.json'));print(' '.join(m.get('detected_by') or [m['property']]))")
   out=$(SEED_FAST=${SEED_FAST:-1} ./seedeval.py $d $id $checks 2>&1 | tail -1)
   echo "$out"
